@@ -1,6 +1,7 @@
 package main
 
 import (
+	"os"
 	"fmt"
 	"go/types"
 	"strings"
@@ -165,6 +166,15 @@ func ifaceWildcardOK(name string) bool { return true }
 func (x *Exec) callFunction(f *Frame, st *State, fn *ssa.Function, args []Val, bindings []Val, info *CallInfo) []callCont {
 	name := fn.String()
 	info.Name = name
+	if x.rawKeys && os.Getenv("GOVC_TRACE") != "" {
+		fmt.Fprintf(os.Stderr, "rawkeys call %s\n", name)
+	}
+	if x.rawKeys {
+		// key-layout audit: the byte-order primitives keep their identity (see keylayout.go, L3)
+		if th, ok := rawKeyTheory[name]; ok {
+			return single(st, th(x, f, st, info))
+		}
+	}
 	// synthetic wrappers ($bound, $thunk): inline always
 	if th, ok := theory[name]; ok {
 		x.assumed[name] = true
@@ -440,6 +450,12 @@ func (x *Exec) appendBuiltin(f *Frame, st *State, info *CallInfo) Val {
 		if bt != nil {
 			if ev, ok := add.(*EncVal); ok {
 				if eb := x.asBytes(st, ev); eb != nil {
+					return UF("bytes_concat", SBytes, bt, eb)
+				}
+			}
+			// key-layout audit: a piecewise-filled buffer appended to a byte string
+			if bv, ok := add.(*BufVal); ok && x.rawKeys {
+				if eb := x.asBytes(st, bv); eb != nil {
 					return UF("bytes_concat", SBytes, bt, eb)
 				}
 			}
